@@ -17,12 +17,13 @@ from fractions import Fraction
 
 import numpy as np
 
-from harness.common.num import q, unq
+from harness.common.num import arr_far, q, unq
 from harness.common.isolated import run_many
 
 PID = "C01"
 LEVEL = "proof"
 REQUIRED_THEOREMS = [
+    "sphTensorDivergence_conservative_first_order_at_origin", "sphTensorDoubleDivergence_conservative_inconsistent_at_origin",
     "d1_central_poly", "d1_forward_poly", "d1_backward_poly", "d2_poly", "d1_linear", "d2_linear",
     "cartLaplace_poly_2d", "polarLaplace_poly", "polarLaplace_even_uniform", "sphLaplace_plain_poly",
     "sphLaplace_conservative_poly", "sphLaplace_conservative_even_uniform", "cylLaplace_poly",
@@ -56,7 +57,7 @@ REQUIRED_THEOREMS = [
     "cylVectorLaplace_r_error_eq", "cylVectorLaplace_first_order_at_axis_smooth",
     "cylVectorLaplace_first_order_at_axis_sharp",
 ]
-EXTRA_PROP_FILES = ["C01Taylor", "C01Smooth", "C01SmoothB"]
+EXTRA_PROP_FILES = ["C01Taylor", "C01Smooth", "C01SmoothB", "C01Axis"]
 RULE = ("matrix leg: seed-derived grids of the four stencil families (Cartesian 1-3 axes incl. UnitGrid, polar, "
         "spherical, cylindrical; 1-4 cells per axis, anisotropic dyadic spacings, with/without hole) x every registered "
         "operator x every documented option (central/forward/backward, conservative or not, central flag) x route; "
@@ -114,8 +115,8 @@ def make_grid(g):
     return pde.CylindricalSymGrid(rad, (lo[1], hi[1]), shape)
 
 
-def gen_grid(rng, cls):
-    nax = {"polar": 1, "sph": 1, "cyl": 2}.get(cls) or rng.choice([1, 2, 2, 3])
+def gen_grid(rng, cls, nax=None, hole=None):
+    nax = {"polar": 1, "sph": 1, "cyl": 2}.get(cls) or nax or rng.choice([1, 2, 2, 3])
     shape = [rng.randint(1, 4 if nax < 3 else 3) for _ in range(nax)]
     unit = cls == "cart" and rng.random() < 0.15
     dx = [1.0 if unit else rng.choice([0.25, 0.5, 1.0, 2.0, 0.125, 1.5, 0.75, 3.0]) for _ in range(nax)]
@@ -124,7 +125,7 @@ def gen_grid(rng, cls):
         if unit:
             lo.append(0.0)
         elif cls != "cart" and i == 0:
-            lo.append(rng.choice([0.0, 0.0, 0.5, 1.0, 2.25, 7.0]))
+            lo.append(0.0 if hole is False else rng.choice([0.5, 1.0, 2.25, 7.0]) if hole else rng.choice([0.0, 0.0, 0.5, 1.0, 2.25, 7.0]))
         else:
             lo.append(rng.choice([0.0, -1.0, 0.5, -2.75, 3.0]))
     return {"cls": cls, "shape": shape, "lo": lo, "dx": dx, "unit": unit}
@@ -199,9 +200,12 @@ def real_matrix(arg):
 # ------------------------------------------------------------------------------------------
 # refinement study (property monitor): smooth test fields with ALL components distinct and
 # non-zero; continuum operators by symbolic differentiation (sympy) of the textbook formulas
-def _continuum(cls, op, dim_cart):
+def _continuum(cls, op, dim_cart, regular=False):
     """returns (input component functions, output component functions) as numpy callables of the
-    grid coordinates; tensor components in the package's order"""
+    grid coordinates; tensor components in the package's order.
+    regular=True (curvilinear grids): fields that are smooth as fields on the physical space, i.e. regular at
+    the axis r = 0 (scalars and axial components even in r, radial/azimuthal components odd, tensors
+    delta_ij A + r^2 B_ij with mixed axial components odd) - the family for the `uniformly over all cells` clause"""
     import sympy as sp
 
     if cls == "cart":
@@ -217,6 +221,9 @@ def _continuum(cls, op, dim_cart):
     rin, rout = RANKS.get(op, (0, 0))
 
     def smooth(k):  # family of distinct smooth functions
+        if regular and cls != "cart":  # even in r
+            zz = X[1] if cls == "cyl" else 0
+            return sp.cos(0.7 * X[0] ** 2 + 0.5 * zz + 0.4 * k) + (0.3 + 0.05 * k) * X[0] ** 2 + 0.1 * k * zz
         return sp.cos(ph + 0.4 * k) + (0.3 + 0.05 * k) * X[0] ** 2 + 0.1 * k * X[-1]
 
     r = X[0]
@@ -239,6 +246,8 @@ def _continuum(cls, op, dim_cart):
             raise KeyError(op)
     elif rin == 1:
         v = [smooth(k + 1) for k in range(d)]
+        if regular and cls != "cart":  # radial and azimuthal components odd in r, axial component even
+            v = [v[k] if (cls == "cyl" and k == 1) else r * v[k] for k in range(d)]
         if cls == "sph":
             v = [v[0], sp.Integer(0), sp.Integer(0)]
         fin = v
@@ -269,9 +278,22 @@ def _continuum(cls, op, dim_cart):
             raise KeyError(op)
     else:
         T = [[smooth(3 * i + j + 1) for j in range(d)] for i in range(d)]
+        if regular and cls != "cart":
+            A = smooth(11)
+            ax = 1 if cls == "cyl" else None  # index of the axial component
+            for i in range(d):
+                for j in range(d):
+                    if i == ax and j == ax:
+                        continue  # T_zz even
+                    if i == ax or j == ax:
+                        T[i][j] = r * T[i][j]  # mixed axial components odd
+                    else:
+                        T[i][j] = (A if i == j else 0) + r ** 2 * T[i][j]
         if cls == "sph":
             # admissible symmetric-grid tensors: T_rθ = T_θr = T_rφ = T_φr = 0, T_θθ = T_φφ, T_φθ = -T_θφ
             q, w = smooth(5), smooth(7)
+            if regular:
+                q, w = smooth(11) + r ** 2 * q, r ** 2 * w
             T = [[T[0][0], 0, 0], [0, q, w], [0, -w, q]]
         fin = [sp.sympify(T[i][j]) for i in range(d) for j in range(d)]
         if op == "tensor_divergence":
@@ -300,6 +322,7 @@ def order_case(arg):
 
     cls, op, opts, lo = arg[:4]
     dim_cart = arg[4] if len(arg) > 4 else 1
+    regular = bool(arg[5]) if len(arg) > 5 else False
     res = []
     Ns = (8, 16, 32) if (cls == "cart" and dim_cart == 3) else ((16, 32, 64) if (cls == "cyl" or (cls == "cart" and dim_cart == 2)) else (32, 64, 128))
     for N in Ns:
@@ -327,7 +350,7 @@ def order_case(arg):
             de = sp.diff(fe, X[opts["axis"]], 1 if op == "d_d" else 2)
             fin_f, fout_f = [sp.lambdify(X, fe, "numpy")], [sp.lambdify(X, de, "numpy")]
         else:
-            fin_f, fout_f, _ = _continuum(cls, op, dim_cart)
+            fin_f, fout_f, _ = _continuum(cls, op, dim_cart, regular)
         fshape = [dim] * rin + list(P[0].shape)
         oshape = [dim] * rout + list(V[0].shape)
         arr = np.zeros(fshape).reshape([-1] + list(P[0].shape))
@@ -341,8 +364,13 @@ def order_case(arg):
         out = np.full(oshape, np.nan)
         f(arr, out)
         err = np.abs(out - exact)
-        away = V[0] >= (grid.axes_bounds[0][0] + 0.5) if cls != "cart" else np.ones(V[0].shape, dtype=bool)
-        res.append((N, float(err[..., away].max()) if away.any() else 0.0, float(err.max())))
+        # "a fixed distance away from the coordinate singularity r = 0": distance from the AXIS (an inner boundary
+        # r_inner > 0 is not a singularity - every cell of a grid with a hole counts)
+        away = V[0] >= 0.5 if cls != "cart" else np.ones(V[0].shape, dtype=bool)
+        with np.errstate(invalid="ignore"):
+            e_away = err[..., away]
+            res.append((N, (float("nan") if not np.isfinite(e_away).all() else float(e_away.max())) if away.any() else 0.0,
+                        float("nan") if not np.isfinite(err).all() else float(err.max())))
     return res
 
 
@@ -363,6 +391,18 @@ for _cls in ("cart", "polar", "sph", "cyl"):
         ORDER_CASES.append((_cls, "d2_d2", {"axis": _ax}, 1.0 if _cls != "cart" else 0.0))
 
 
+# the `uniformly over all cells` clause: central variants on grids that contain the axis, axis-regular fields,
+# error over ALL cells; the cylindrical vector Laplacian is the documented first-order exception
+UNIFORM_CASES = []
+for _cls, _ops in OPS.items():
+    if _cls == "cart":
+        continue
+    for _op, _optl in _ops.items():
+        for _o in _optl:
+            if _o.get("method", "central") == "central" and not (_cls == "cyl" and _op == "vector_laplace"):
+                UNIFORM_CASES.append((_cls, _op, _o, 0.0, 1, True))
+
+
 def expected_order(op, opts):
     if opts.get("method", "central") != "central":
         return 1.0
@@ -371,21 +411,31 @@ def expected_order(op, opts):
 
 def check_order(ctx, case, res, leg="order"):
     cls, op, opts, lo = case[:4]
+    uniform = len(case) > 5 and bool(case[5])
     exp = expected_order(op, opts)
-    errs = [e for _, e, _ in res]
+    errs = [(e_all if uniform else e) for _, e, e_all in res]
     obs = []
+    finite = all(math.isfinite(e) for e in errs)
     for a, b in zip(errs, errs[1:]):
-        if b > 1e-12 and a > 1e-12:
+        if finite and b > 1e-12 and a > 1e-12:
             obs.append(math.log2(a / b))
     ctx.monitor_evals += 1
     # pre-asymptotic pairs may be lower; the finest pair decides, coarser pairs must not be far off
-    ok = (not obs or (obs[-1] >= exp - 0.25 and all(o >= exp - 0.6 for o in obs))) and (errs[-1] < (0.02 if exp == 2.0 else 0.2))
-    ctx.hist("observed-order", f"{cls}:{op}:{round(min(obs), 1) if obs else 'exact'}")
+    ok = finite and (not obs or (obs[-1] >= exp - 0.25 and all(o >= exp - 0.6 for o in obs))) \
+        and (errs[-1] < (0.02 if exp == 2.0 else 0.2))
+    ctx.hist("observed-order" + ("-uniform" if uniform else ""), f"{cls}:{op}:{round(min(obs), 1) if obs else 'exact'}")
     if not ok:
         ctx.monitor_fail(leg, {"cls": cls, "op": op, "opts": opts, "r_min": lo, "dim_cart": case[4] if len(case) > 4 else 1,
-                               "field": "components cos(phase + 0.4 k) + (0.3 + 0.05 k) x0^2 + 0.1 k x_last, k = component number (see harness/c01.py:_continuum)"},
-                         {"errors_away_from_axis": errs, "observed_orders": obs}, f"order >= {exp - 0.25}",
-                         f"{cls} {op}: error does not shrink at the documented rate", key={"cls": cls, "op": op})
+                               "uniform": uniform,
+                               "field": ("axis-regular family (even/odd in r), error over ALL cells" if uniform else
+                                         "components cos(phase + 0.4 k) + (0.3 + 0.05 k) x0^2 + 0.1 k x_last, k = component number")
+                               + " (see harness/c01.py:_continuum)"},
+                         {"errors": errs, "observed_orders": obs}, f"order >= {exp - 0.25}",
+                         f"{cls} {op}: error does not shrink at the documented rate"
+                         + (" uniformly over all cells" if uniform else ""),
+                         key={"cls": cls, "op": op, "uniform": str(uniform), "conservative": str(opts.get("conservative", "-")),
+                              # observed order of the finest pair, rounded: a different behaviour is a different finding
+                              "order": str(round(obs[-1])) if obs else "none"})
     return ok
 
 
@@ -399,14 +449,20 @@ def run(ctx):
     batch = LeanBatch(ctx.workdir)
     jobs = []  # (grid, op, opts, model request index, data)
     for cls in ("cart", "polar", "sph", "cyl"):
-        grids = [gen_grid(rng, cls) for _ in range(n_grids * (2 if cls == "cart" else 1))]
+        # stratified: every run has 1-, 2- and 3-axis Cartesian grids (separate kernels) and, per curvilinear class,
+        # a grid containing the axis and a grid with a hole; every operator/option meets every grid
+        if cls == "cart":
+            grids = [gen_grid(rng, cls, nax=k) for k in (1, 2, 3)] + [gen_grid(rng, cls) for _ in range(n_grids * 2 - 3)]
+        else:
+            grids = [gen_grid(rng, cls, hole=False), gen_grid(rng, cls, hole=True)] + [gen_grid(rng, cls) for _ in range(n_grids - 2)]
         for op, optl in OPS[cls].items():
             for opts in optl:
-                for g in (grids if thorough else rng.sample(grids, min(len(grids), 2 if cls == "cart" else 1))):
+                for g in grids:
                     rin = RANKS[op][0]
                     dim = DIM.get(cls, len(g["shape"]))
                     n_in = dim ** rin * int(np.prod([n + 2 for n in g["shape"]]))
                     if n_in > 1300:
+                        ctx.hist("matrix-skipped", "input larger than 1300 entries")
                         continue
                     if op == "gradient_squared":
                         data = [[rng.randint(-6, 6) for _ in range(n_in)] for _ in range(3)]
@@ -427,9 +483,6 @@ def run(ctx):
     answers = batch.run()
 
     # real code ---------------------------------------------------------------------------------
-    def strip(o):
-        return {k: v for k, v in o.items() if k != "axis" or True}
-
     args_s = [(g, op, opts, "numba", data) for g, op, opts, _, data in jobs]
     res_s = run_many("harness.c01", "real_matrix", args_s, env={"NUMBA_DISABLE_JIT": "1"}, procs=16)
     n_jit = ctx.budget(40, 400)
@@ -476,7 +529,7 @@ def run(ctx):
                         continue
                     mv = np.array([float(unq(x)) for x in val])
                     sc = max(1.0, np.abs(mv).max())
-                    if mv.shape != vals.shape or np.abs(mv - vals).max() > 1e-11 * sc:
+                    if arr_far(mv, vals, 1e-11 * sc):
                         ctx.disagree("matrix:" + rname, dict(ckey, data=d), mv.tolist(), np.asarray(vals).tolist(),
                                      "gradient_squared values differ")
                         differing_ops.add((g["cls"], op))
@@ -490,14 +543,17 @@ def run(ctx):
             for o, i_, v in val:
                 model[o, i_] = float(unq(v))
             sc = max(1e-300, np.abs(model).max())
-            diff = np.abs(model - mat)
-            bad = np.argwhere((diff > 1e-11 * sc) | ((model == 0) != (mat == 0)) & (diff > 0))
+            with np.errstate(invalid="ignore"):
+                diff = np.abs(model - mat)
+                # an output cell the kernel never writes stays NaN (the output is pre-filled with NaN): non-finite
+                # entries differ from every model entry
+                bad = np.argwhere(~np.isfinite(mat) | (diff > 1e-11 * sc) | ((model == 0) != (mat == 0)) & (diff > 0))
             if len(bad):
                 o, i_ = (int(x) for x in bad[0])
                 ctx.disagree("matrix:" + rname, dict(ckey, basis_vector=i_, output_cell=o), float(model[o, i_]), float(mat[o, i_]),
                              f"{len(bad)} matrix entries differ")
                 differing_ops.add((g["cls"], op))
-            if not isinstance(rr["complex_dev"], float) or rr["complex_dev"] > 1e-9 * max(1.0, sc) * 10:
+            if not isinstance(rr["complex_dev"], float) or not (rr["complex_dev"] <= 1e-9 * max(1.0, sc) * 10):
                 ctx.disagree("complex:" + rname, ckey, "complex-linear", rr["complex_dev"], "operator on complex data")
 
     # order leg ------------------------------------------------------------------------------------
@@ -507,9 +563,14 @@ def run(ctx):
         todo = [c for c in ORDER_CASES if (c[0], c[1]) in differing_ops]
         rest = [c for c in ORDER_CASES if c not in todo]
         todo += rng.sample(rest, min(len(rest), 24))
+    # the uniform clause (axis-regular fields, error over all cells incl. the cell adjoining the axis): every run
+    todo += UNIFORM_CASES if thorough else ([c for c in UNIFORM_CASES if c[0] == "sph" and c[1].startswith("tensor")]
+                                            + rng.sample(UNIFORM_CASES, 8))
+    todo = [c for i, c in enumerate(todo) if c not in todo[:i]]
     res_o = run_many("harness.c01", "order_case", todo, env={"NUMBA_DISABLE_JIT": "1"}, procs=16)
     for case, res in zip(todo, res_o):
-        ctx.count({"order": list(case[:2]), "opts": case[2], "lo": case[3], "dim": case[4] if len(case) > 4 else None}, nontrivial=True, leg="order")
+        ctx.count({"order": list(case[:2]), "opts": case[2], "lo": case[3], "dim": case[4] if len(case) > 4 else None,
+                   "uniform": len(case) > 5 and bool(case[5])}, nontrivial=True, leg="order")
         ctx.impl_traces += 1
         if isinstance(res, str):
             if (case[0], case[1]) in differing_ops:
@@ -528,7 +589,7 @@ def search(ctx, broken):
         g = c.get("grid")
         if g:
             classes.add(g["cls"])
-    todo = [c for c in ORDER_CASES if c[0] in classes]
+    todo = [c for c in ORDER_CASES + UNIFORM_CASES if c[0] in classes]
     res_o = run_many("harness.c01", "order_case", todo, env={"NUMBA_DISABLE_JIT": "1"}, procs=16)
     before = len(ctx.monitor_failures)
     for case, res in zip(todo, res_o):
@@ -540,10 +601,11 @@ def search(ctx, broken):
 def replay(ctx, rep):
     c = rep["case"]
     if "cls" in c:
-        res = order_case((c["cls"], c["op"], c["opts"], c["r_min"], c.get("dim_cart", 1)))
+        case = (c["cls"], c["op"], c["opts"], c["r_min"], c.get("dim_cart", 1), bool(c.get("uniform", False)))
+        res = order_case(case)
         print("refinement study (N, error away from axis, error all cells):", res)
         before = len(ctx.monitor_failures)
-        check_order(ctx, (c["cls"], c["op"], c["opts"], c["r_min"], c.get("dim_cart", 1)), res)
+        check_order(ctx, case, res)
         return len(ctx.monitor_failures) == before
     print("matrix case:", c)
     return False
